@@ -106,6 +106,7 @@ def run_pass(world, pspec, vector):
         _install_reach_probe(reached)
     gexp = snapshot.global_state()
     g0 = dict(gexp)
+    gfull0 = snapshot.global_state(full=True)
     serial_like = pspec["sched"]["kind"] in ("serial", "opgran")
 
     pool: list = []
@@ -434,6 +435,10 @@ def run_pass(world, pspec, vector):
         now = snapshot.global_state()
         if now != gexp:
             for key in snapshot.state_diff(gexp, now):
+                viol.append(_viol("C20", "I1", f"global:{key}", "end", pname, f"{key} differs at end of run"))
+        gfull1 = snapshot.global_state(full=True)
+        for key in snapshot.state_diff(gfull0, gfull1):
+            if key not in gexp:      # the keys watched op by op were reported above
                 viol.append(_viol("C20", "I1", f"global:{key}", "end", pname, f"{key} differs at end of run"))
         # I3: results still what they were when returned
         for k in range(nthreads):
